@@ -208,6 +208,42 @@ theorem attenuate_all_or_nothing (b : Bundle) (items : List (AddItem Bytes)) :
         added = (add c items).1.cavs.drop c.cavs.length) :=
   ⟨attenuate_err b items, attenuate_ok b items, attTok_kind items, attTok_verified items, attMac_spec items⟩
 
+/-- **the verified set after attenuation**: a verified permission token of a successfully attenuated
+bundle is replaced by a verified token whose verified set is the old set followed by EXACTLY the
+caveats `Add` appended to its clone — whatever their kind: plain caveats and third-party caveats
+alike (nothing is filtered out on the way; `Verify` would not have returned a third-party caveat,
+`Attenuate` does put it there) -/
+theorem attenuate_verified_set (b : Bundle) (items : List (AddItem Bytes)) (hok : (b.attenuate items).2 = false)
+    (s : Str) (m : M) (cs : CS) (ht : Tok.verified s m cs ∈ b.ts) (hp : b.isPerm (.verified s m cs) = true) :
+    ∃ s' m' c bytes, (Concrete.encode m).2.bind Concrete.decode = some c ∧ (add c items).2 = none ∧
+      Concrete.encode (add c items).1 = (m', some bytes) ∧ s' = macString bytes ∧
+      Tok.verified s' m' (cs ++ (add c items).1.cavs.drop c.cavs.length) ∈ (b.attenuate items).1.ts :=
+  Lemmas.BundleL.attenuate_verified_set b items hok s m cs ht hp
+
+/-- what `Add` appends for one fresh third-party item (`NewCaveat3P`): the third-party caveat itself,
+with the VerifierKey sealed under the tail before it — unless a caveat with the same encoding was
+already in the token (then `dedup` drops the item) -/
+theorem add_single_third_party (c : M) (loc tk rn n : Bytes) (c' : M) (h : add c [.new3p loc tk rn n] = (c', none)) :
+    c'.cavs = c.cavs ++ [.tp loc (Crypto.sealKey c.tail n rn) tk] ∨
+    ((c.cavs.any fun x => Crypto.sameEnc x (.tp loc Crypto.empty tk)) = true ∧ c'.cavs = c.cavs) :=
+  add_single_new3p c loc tk rn n c' h
+
+/-- a third-party caveat in a caveat set clears nothing: `Prohibits` of a `Caveat3P` is `ErrBadCaveat` -/
+theorem third_party_caveat_clears_nothing (cs : CS) (loc vk tk : Bytes) (h : Cav.tp loc vk tk ∈ cs)
+    (rs : List Access) (hne : rs ≠ []) : Macaroon.validate cs rs ≠ [] :=
+  validate_tp_blocks cs loc vk tk h rs hne
+
+/-- **attenuated_3p_blocks_until_reverified.**  After a successful attenuation in which `Add` appended
+a third-party caveat to every verified token, `Validate` refuses every non-empty request list: the
+verified sets now hold the third-party caveat, and only a new `Verify` — which needs the discharge —
+can clear anything again -/
+theorem attenuated_3p_blocks_until_reverified (b : Bundle) (items : List (AddItem Bytes))
+    (hok : (b.attenuate items).2 = false) (inv : VerifiedArePerm b)
+    (h3p : ∀ s m cs, Tok.verified s m cs ∈ b.ts → ∀ c, (Concrete.encode m).2.bind Concrete.decode = some c →
+      ∃ loc vk tk, Cav.tp loc vk tk ∈ (add c items).1.cavs.drop c.cavs.length)
+    (rs : List Access) (hne : rs ≠ []) : (b.attenuate items).1.validate rs = false :=
+  attenuated_3p_blocks b items hok inv h3p rs hne
+
 /-- attenuating through a derived bundle is visible in the parent (the code documents that `Select`
 shares the tokens): the objects the derived bundle points to are rewritten in place -/
 theorem attenuate_writes_through (h : Heap) (b : HBundle) (items : List (AddItem Bytes)) :
@@ -267,6 +303,10 @@ example : f6Bundle.dischargeF6 [65] [] (fun _ => some []) [] = (f6Bundle, true) 
     f6Bundle.discharge [65] [] (fun _ => some []) [] = (f6Bundle, false) :=
   f6_discharge_violates_contract f6Bundle [65] [] _ [] ([66], [9]) (by decide) f6_ticket_does_not_open (by decide)
 
+/-- a third-party caveat alone in a verified set refuses a plain request -/
+example : Macaroon.validate [(Cav.tp [1] [2] [3] : Cav Bytes)] [Access.bare 0 0] ≠ [] :=
+  third_party_caveat_clears_nothing _ [1] [2] [3] (by simp) _ (by simp)
+
 end Macaroon.Props.C13
 
 #print axioms Macaroon.Props.C13.bundle_decision
@@ -290,6 +330,10 @@ end Macaroon.Props.C13
 #print axioms Macaroon.Props.C13.filter_effect
 #print axioms Macaroon.Props.C13.filter_predicates
 #print axioms Macaroon.Props.C13.attenuate_all_or_nothing
+#print axioms Macaroon.Props.C13.attenuate_verified_set
+#print axioms Macaroon.Props.C13.add_single_third_party
+#print axioms Macaroon.Props.C13.third_party_caveat_clears_nothing
+#print axioms Macaroon.Props.C13.attenuated_3p_blocks_until_reverified
 #print axioms Macaroon.Props.C13.attenuate_writes_through
 #print axioms Macaroon.Props.C13.discharge_effect
 #print axioms Macaroon.Props.C13.f6_discharge_violates_contract
